@@ -21,6 +21,10 @@ for d in sorted(glob.glob(os.path.join(VERIF, 'seeded', '*'))):
     if os.path.exists(os.path.join(d, 'MISSED')):
         continue  # recorded as not detected (see DESIGN.md): kept for reference, not a canary
     corpus.append({'id': 'seeded-' + os.path.basename(d), 'prop': meta['property'], 'patch': os.path.join(d, 'patch.diff'), 'expect': '.'})
+# harmless edits: must NOT raise an alarm (every line of every source file shifted by a comment block)
+props_all = sorted({e['prop'] for e in corpus})
+for pr in props_all:
+    corpus.append({'id': 'harmless-shift-' + pr, 'prop': pr, 'harmless': 'shift'})
 bad = 0
 ran = 0
 for e in corpus:
@@ -30,7 +34,19 @@ for e in corpus:
     try:
         scratch = os.path.join(tmp, 'repo')
         shutil.copytree('/repo', scratch, ignore=shutil.ignore_patterns('.git'))
-        if 'patch' in e:
+        if e.get('harmless') == 'shift':
+            import glob as _g
+            for fn in _g.glob(os.path.join(scratch, '*.go')) + _g.glob(os.path.join(scratch, 'cmd', 'desync', '*.go')):
+                if fn.endswith('_test.go') or fn.endswith('verif_contracts.go'):
+                    continue
+                src = open(fn).read()
+                i = src.find('\npackage ')
+                j = src.find('\n', i + 1)
+                if src.startswith('package '):
+                    i, j = -1, src.find('\n')
+                if j > 0:
+                    open(fn, 'w').write(src[:j + 1] + '\n// harmless edit: shifted\n// by three lines\n' + src[j + 1:])
+        elif 'patch' in e:
             a = subprocess.run(['git', 'apply', e['patch']], cwd=scratch, capture_output=True, text=True)
             if a.returncode != 0:
                 print(f"SELFTEST-STALE {e['id']}: patch does not apply: {a.stderr[:200]}")
@@ -61,6 +77,13 @@ for e in corpus:
                            env=env, capture_output=True, text=True)
         ran += 1
         viol = re.findall(r'VIOLATION property=\S+ replay=\S*/([^/\s]+)\.json', r.stdout)
+        if e.get('harmless'):
+            if r.returncode == 0 and not viol:
+                print(f"selftest ok   {e['id']:40s} no alarm on a harmless edit")
+            else:
+                print(f"SELFTEST-FALSE-ALARM {e['id']}: rc={r.returncode} {viol[:5]}")
+                bad += 1
+            continue
         hit = [v for v in viol if re.search(e['expect'], v)]
         if r.returncode == 1 and hit:
             print(f"selftest ok   {e['id']:40s} fails {hit[0]}")
